@@ -344,6 +344,9 @@ func (x *X) havocAlloc() {
 }
 
 func (x *X) havocWrites(w *writeSet, why string) {
+	if w.all || len(w.keys) > 0 {
+		x.bumpHeapVersion("*")
+	}
 	if w.all {
 		x.havocHeap(why)
 		for c := range x.st.cells {
@@ -842,6 +845,7 @@ func (x *X) appendVC(fr *frame, in ssa.Instruction, c *ssa.CallCommon, args []Va
 			nh, res.Arr, res.Off, s.Len, res.Off, n, src, inplace, r, s.Len, old, s.Arr, s.Off, old, nh))
 		x.st.heap[key] = nh
 	}
+	x.bumpHeapVersion("append")
 	return res
 }
 
@@ -877,6 +881,7 @@ func (x *X) copyVC(fr *frame, in ssa.Instruction, c *ssa.CallCommon, args []Val)
 			nh, d.Arr, d.Off, d.Off, n, srcAt(old, "(- j "+d.Off+")"), old, nh))
 		x.st.heap[key] = nh
 	}
+	x.bumpHeapVersion("copy")
 	return S{n, SInt}
 }
 
